@@ -51,6 +51,12 @@ class AClass:
     def __repr__(self) -> str:
         return f'<class {self.ref.name if isinstance(self.ref, ClassInfo) else self.ref[1]}>'
 
+    def __eq__(self, other) -> bool:
+        return isinstance(other, AClass) and (other.ref is self.ref or (isinstance(self.ref, tuple) and other.ref == self.ref))
+
+    def __hash__(self) -> int:
+        return hash(self.ref.name if isinstance(self.ref, ClassInfo) else self.ref)
+
 
 class AFunc:
     def __init__(self, unit: FuncUnit, self_obj=None, closure=None, pre_args=(), pre_kwargs=None) -> None:
@@ -59,6 +65,7 @@ class AFunc:
         self.closure = closure
         self.pre_args = tuple(pre_args)
         self.pre_kwargs = dict(pre_kwargs or {})
+        self.attrs: dict = {}            # function attributes set by the interpreted code (__name__, __doc__, ...)
 
 
 class AExt:
@@ -68,6 +75,13 @@ class AExt:
 
     def __repr__(self) -> str:
         return f'<ext {self.name}>'
+
+    def __eq__(self, other) -> bool:
+        # two references to the same external name (an enum member such as inspect.Parameter.VAR_KEYWORD) are the same value
+        return isinstance(other, AExt) and other.name == self.name and other.recv is self.recv
+
+    def __hash__(self) -> int:
+        return hash(self.name)
 
 
 class ASuper:
@@ -313,6 +327,10 @@ class Interp:
             return tuple(self._to_list(args[0])) if args else ()
         if name == 'builtins.bool':
             return self.truth(args[0]) if args else False
+        if name == 'builtins.type' and len(args) == 3 and isinstance(args[2], dict):
+            # type(name, bases, namespace): a class created at run time, held as an object with the namespace as attributes
+            return AObj(('ext', 'created-class'), {'__name__': args[0], '__bases__': tuple(self._to_list(args[1])), **args[2]},
+                        tag='created-class')
         if name == 'builtins.enumerate':
             start = args[1] if len(args) > 1 else kwargs.get('start', 0)
             return list(enumerate(self._to_list(args[0]), start))
@@ -320,6 +338,14 @@ class Interp:
             return list(zip(*[self._to_list(a) for a in args]))
         if name == 'builtins.reversed':
             return list(reversed(self._to_list(args[0])))
+        if name == 'builtins.filter' and len(args) == 2:
+            items = self._to_list(args[1])
+            if args[0] is None:
+                return [x for x in items if self.truth(x)]
+            return [x for x in items if self.truth(self.call(args[0], [x], {}))]
+        if name == 'builtins.map' and len(args) >= 2:
+            cols = [self._to_list(a) for a in args[1:]]
+            return [self.call(args[0], list(xs), {}) for xs in zip(*cols)]
         if name == 'builtins.frozenset':
             return frozenset(self._to_list(args[0])) if args else frozenset()
         if name == 'builtins.range' and all(isinstance(a, int) for a in args):
@@ -365,10 +391,24 @@ class Interp:
             if isinstance(obj, AObj) and args[1] in obj.attrs:
                 return obj.attrs[args[1]]
             if isinstance(obj, (AObj, AClass)):
-                return self.getattr_(obj, args[1], {'__unit__': None, '__module__': None, '__closure__': None})
+                r = self.getattr_(obj, args[1], {'__unit__': None, '__module__': None, '__closure__': None})
+                if r is TOP and len(args) >= 3:
+                    return args[2]                      # the attribute is not part of the modelled object: the default
+                return r
+            if isinstance(obj, AFunc):
+                return obj.attrs.get(args[1], args[2] if len(args) >= 3 else TOP)
             return TOP
         if name == 'builtins.enumerate':
             return list(enumerate(self._to_list(args[0])))
+        if name == 'json.dumps' and args and not kwargs:
+            def plain(x) -> bool:
+                return isinstance(x, (str, int, type(None))) or (isinstance(x, (list, tuple)) and all(plain(y) for y in x))
+            import json as _json
+            return _json.dumps(args[0]) if plain(args[0]) else TOP
+        if name == 'collections.deque':
+            return self._to_list(args[0]) if args else []
+        if name == 'builtins.callable':
+            return args[0] is not None and not isinstance(args[0], (str, int, bool))
         if name == 'builtins.str':
             return TOP
         if name == 'functools.partial':
@@ -399,6 +439,26 @@ class Interp:
                 return args[0] in recv.attrs.get('nodes', {})
             if last == 'has_edge':
                 return (args[0], args[1]) in edges
+            nodes = recv.attrs.get('nodes')
+            if isinstance(nodes, dict):
+                # writers of an abstract graph under construction (networkx semantics: attributes are merged)
+                if last == 'add_node':
+                    nodes.setdefault(args[0], {}).update(kwargs)
+                    return None
+                if last == 'add_edge':
+                    nodes.setdefault(args[0], {})
+                    nodes.setdefault(args[1], {})
+                    edges.setdefault((args[0], args[1]), {}).update(kwargs)
+                    return None
+                if last == 'copy':
+                    return AObj(recv.cls, {'nodes': {k: dict(v) for k, v in nodes.items()},
+                                           'edges': {k: dict(v) for k, v in edges.items()}}, tag=recv.tag)
+        if isinstance(recv, str) and last in _STR_METHODS:
+            def concrete(x) -> bool:
+                return isinstance(x, (str, int)) or (isinstance(x, (list, tuple)) and all(concrete(y) for y in x))
+            if all(concrete(a) for a in args) and not kwargs:
+                return getattr(recv, last)(*args)
+            return TOP
         if isinstance(recv, (dict, set, list)) and last == '__contains__':
             return args[0] in recv
         if isinstance(recv, dict):
@@ -465,6 +525,23 @@ class Interp:
                 return None
             if last == 'extend':
                 recv.extend(self._to_list(args[0]))
+                return None
+            if last == 'appendleft':
+                recv.insert(0, args[0])
+                return None
+            if last == 'insert' and isinstance(args[0], int):
+                recv.insert(args[0], args[1])
+                return None
+            if last in ('pop', 'popleft'):
+                if not recv:
+                    raise ARaise('IndexError')
+                if last == 'popleft':
+                    return recv.pop(0)
+                return recv.pop(*[a for a in args if isinstance(a, int)])
+            if last == 'copy':
+                return list(recv)
+            if last == 'clear':
+                recv.clear()
                 return None
         return TOP
 
@@ -542,6 +619,24 @@ class Interp:
                     break
             else:
                 self.exec_block(st.orelse, env)
+            return
+        if isinstance(st, ast.While):
+            while self.truth(self.eval(st.test, env)):
+                self.tick()
+                try:
+                    self.exec_block(st.body, env)
+                except _Continue:
+                    continue
+                except _Break:
+                    break
+            else:
+                self.exec_block(st.orelse, env)
+            return
+        if isinstance(st, (ast.FunctionDef, ast.AsyncFunctionDef)):
+            unit = self.p.unit_of_node.get(id(st))
+            if unit is None:
+                raise AnalysisError(f'abstract interpretation: nested function {st.name} has no unit')
+            env[st.name] = AFunc(unit, None, env)
             return
         if isinstance(st, ast.Continue):
             raise _Continue()
@@ -631,6 +726,9 @@ class Interp:
             if isinstance(obj, AObj):
                 obj.attrs[self.mangle(tgt.attr, env)] = v
                 return
+            if isinstance(obj, AFunc):
+                obj.attrs[tgt.attr] = v
+                return
             if obj is TOP:
                 return
         raise AnalysisError(f'abstract interpretation: unsupported assignment target {unparse(tgt)}')
@@ -682,8 +780,8 @@ class Interp:
         if isinstance(obj, AObj):
             if real in obj.attrs:
                 return obj.attrs[real]
-            if attr in ('predecessors', 'successors', 'in_edges', 'out_edges', 'has_node', 'has_edge') and 'edges' in obj.attrs \
-                    and isinstance(obj.attrs['edges'], dict):
+            if attr in ('predecessors', 'successors', 'in_edges', 'out_edges', 'has_node', 'has_edge', 'add_node', 'add_edge',
+                        'copy') and 'edges' in obj.attrs and isinstance(obj.attrs['edges'], dict):
                 return AExt(f'networkx.DiGraph.{attr}', recv=obj)           # an abstract graph given by its edge / node tables
             if isinstance(obj.cls, ClassInfo):
                 m = self.p.lookup_method(obj.cls, attr, env['__unit__'].cls if env.get('__unit__') else None)
@@ -743,7 +841,13 @@ class Interp:
             return AExt(f'{obj.name}.{attr}', recv=obj.recv)
         if isinstance(obj, (dict, set, list)):
             return AExt(f'builtins.{type(obj).__name__}.{attr}', recv=obj)
+        if isinstance(obj, str) and attr in _STR_METHODS:
+            return AExt(f'builtins.str.{attr}', recv=obj)
         if isinstance(obj, AFunc):
+            if attr in obj.attrs:
+                return obj.attrs[attr]
+            if attr == '__annotations__':
+                return obj.attrs.setdefault('__annotations__', {})
             return TOP
         if obj is None:
             raise ARaise('AttributeError')
@@ -801,6 +905,9 @@ class Interp:
             return v
         if isinstance(e, ast.UnaryOp) and isinstance(e.op, ast.Not):
             return not self.truth(self.eval(e.operand, env))
+        if isinstance(e, ast.UnaryOp) and isinstance(e.op, ast.USub):
+            v = self.eval(e.operand, env)
+            return -v if isinstance(v, (int, float)) and not isinstance(v, bool) else TOP
         if isinstance(e, ast.Compare):
             left = self.eval(e.left, env)
             result = True
@@ -820,7 +927,17 @@ class Interp:
         if isinstance(e, ast.Set):
             return {self.eval(x, env) for x in e.elts}
         if isinstance(e, ast.Dict):
-            return {self.eval(k, env): self.eval(v, env) for k, v in zip(e.keys, e.values)}
+            d = {}
+            for k, v in zip(e.keys, e.values):
+                if k is None:                   # {**other}
+                    other = self.eval(v, env)
+                    if isinstance(other, dict):
+                        d.update(other)
+                    elif other is not TOP:
+                        raise AnalysisError('abstract interpretation: ** of non-dict in a dict display')
+                else:
+                    d[self.eval(k, env)] = self.eval(v, env)
+            return d
         if isinstance(e, (ast.ListComp, ast.GeneratorExp, ast.SetComp)):
             out: list = []
             self._comp(e, 0, env, out)
@@ -853,6 +970,16 @@ class Interp:
             return ''.join(parts)
         if isinstance(e, ast.Await):
             return self.eval(e.value, env)
+        if isinstance(e, ast.BinOp) and isinstance(e.op, (ast.Add, ast.Sub, ast.Mod)):
+            a, b = self.eval(e.left, env), self.eval(e.right, env)
+            if isinstance(e.op, ast.Add) and ((isinstance(a, str) and isinstance(b, str)) or
+                                              (isinstance(a, int) and isinstance(b, int) and not isinstance(a, bool))):
+                return a + b
+            if isinstance(e.op, ast.Add) and isinstance(a, (list, tuple)) and type(a) is type(b):
+                return a + b
+            if isinstance(e.op, ast.Sub) and isinstance(a, int) and isinstance(b, int):
+                return a - b
+            return TOP
         raise AnalysisError(f'abstract interpretation: unsupported expression {type(e).__name__}: {unparse(e)}')
 
     def _comp(self, e, idx: int, env: dict, out: list) -> None:
@@ -875,6 +1002,8 @@ class Interp:
                 r = a in b.attrs['data']
             elif isinstance(b, (dict, set, list, tuple, frozenset)):
                 r = a in b
+            elif isinstance(b, AObj) and isinstance(b.attrs.get('nodes'), (dict, set, list, tuple)):
+                r = a in b.attrs['nodes']                  # `node in graph`
             else:
                 raise AnalysisError(f'abstract interpretation: membership in {b!r}')
             return r if isinstance(op, ast.In) else not r
@@ -891,6 +1020,10 @@ class Interp:
                 r = a == b
             return r if isinstance(op, ast.Eq) else not r
         raise AnalysisError(f'abstract interpretation: unsupported comparison {type(op).__name__}')
+
+
+_STR_METHODS = {'split', 'rsplit', 'join', 'replace', 'startswith', 'endswith', 'lower', 'upper', 'strip', 'lstrip', 'rstrip',
+                'partition', 'rpartition', 'removeprefix', 'removesuffix', 'title', 'capitalize'}
 
 
 class _Continue(Exception):
